@@ -1,0 +1,138 @@
+// SPDX-FileCopyrightText: 2023 The Pion community <https://pion.ly>
+// SPDX-License-Identifier: MIT
+
+//go:build verif
+
+package packetio
+
+// Machine-checked contracts for /verif (govc).  Comment-only: with the build tag off this
+// file does not exist for the compiler; with it on it adds nothing but this package clause.
+
+//@ arith int
+//@ monitor Buffer mutex: data, head, tail, closed, count, limitCount, limitSize
+//@ field Buffer data owned
+//@ field Buffer notify immutable
+//@ field Buffer readDeadline immutable
+
+// Ghost history (guarded by the mutex like the fields): W/R bytes ever written/consumed, G the byte ever
+// written at absolute stream position p, wr/rd packets written/read, start[j] the absolute start of packet j.
+//@ ghost Buffer W mathint
+//@ ghost Buffer R mathint
+//@ ghost Buffer wr mathint
+//@ ghost Buffer rd mathint
+//@ ghost Buffer G map[mathint]byte
+//@ ghost Buffer start map[mathint]mathint
+//@ ghost Buffer end map[mathint]mathint
+
+//@ pure (b *Buffer) sz() mathint = ite(b.tail - b.head >= 0, b.tail - b.head, b.tail - b.head + len(b.data))
+//@ pure (b *Buffer) idx(p mathint) mathint = ite(b.head + (p - b.R) < len(b.data), b.head + (p - b.R), b.head + (p - b.R) - len(b.data))
+//@ pure (b *Buffer) plen(j mathint) mathint = 256*b.G[b.start[j]] + b.G[b.start[j]+1]
+
+//@ invariant (b *Buffer) ring: (len(b.data) == 0 && b.head == 0 && b.tail == 0) ||
+//@      (0 <= b.head && b.head < len(b.data) && 0 <= b.tail && b.tail < len(b.data))
+//@ invariant (b *Buffer) bytes: 0 <= b.R && b.R <= b.W && b.sz() == b.W - b.R &&
+//@      (forall p mathint :: {b.G[p]} b.R <= p && p < b.W ==> b.data[b.idx(p)] == b.G[p]) &&
+//@      (forall p mathint :: {b.G[p]} 0 <= b.G[p] && b.G[p] < 256)
+//@ invariant (b *Buffer) frames: 0 <= b.rd && b.rd <= b.wr && b.count == b.wr - b.rd &&
+//@      b.start[b.rd] == b.R && b.start[b.wr] == b.W &&
+//@      forall j mathint :: {b.end[j]} b.rd <= j && j < b.wr ==>
+//@            b.end[j] == b.start[j] + 2 + b.plen(j) && b.start[j] + 2 <= b.end[j] && b.end[j] <= b.W && b.start[j+1] == b.end[j]
+// Sizes stay far away from the 64-bit range (SetLimitSize documents the same bound as its precondition).
+//@ invariant (b *Buffer) bound: len(b.data) <= 1152921504606846976 && b.limitSize < 1152921504606846976
+//@ invariant (b *Buffer) notify: b.notify != nil && closed(b.notify) == b.closed
+//@ invariant (b *Buffer) count: 0 <= b.count &&
+//@      forall j mathint :: {b.start[j]} b.rd <= j && j <= b.wr ==> 2*(b.wr - j) <= b.W - b.start[j]
+//@ invariant (b *Buffer) empty: (b.count == 0) == (b.head == b.tail)
+
+// The acceptance rule of C07.
+//@ pure (b *Buffer) accepts(n mathint) bool = n < 65536 && !b.closed &&
+//@      !(b.limitCount > 0 && b.count >= b.limitCount) &&
+//@      !(b.limitSize > 0 && b.sz() + 2 + n > b.limitSize) &&
+//@      (b.limitSize <= 0 ==> b.sz() + 2 + n <= maxSize - 1)
+
+//@ func (b *Buffer) size() (r int)
+//@   locked b.mutex
+//@   pure
+//@   requires b.ring()
+//@   ensures [sz] r == b.sz()
+
+//@ func (b *Buffer) available(size int) (r bool)
+//@   locked b.mutex
+//@   pure
+//@   requires b.ring() && 0 <= size && size < 65536
+//@   ensures [avail] r == (size + 3 <= len(b.data) - b.sz())
+
+//@ func (b *Buffer) grow() (err error)
+//@   locked b.mutex
+//@   requires b.inv()
+//@   modifies b.data, b.head, b.tail
+//@   ensures [grown] err == nil ==> len(b.data) > old(len(b.data)) && b.inv()
+//@   ensures [full] err != nil ==> err == ErrFull && b.data == old(b.data) && b.head == old(b.head) && b.tail == old(b.tail) &&
+//@            ((b.limitSize <= 0 && len(b.data) >= maxSize) || (b.limitSize > 0 && len(b.data) >= b.limitSize + 1))
+
+//@ func NewBuffer() (b *Buffer)
+//@   constructor
+//@   ensures [init] b != nil && b.inv() && b.W == 0 && b.R == 0 && b.wr == 0 && b.rd == 0 && !b.closed && b.limitCount == 0 && b.limitSize == 0
+
+//@ func (b *Buffer) Write(packet []byte) (n int, err error)
+//@   ensures [toobig] len(packet) >= 65536 ==> err == errPacketTooBig && n == 0
+//@   ensures [exact] len(packet) < 65536 ==> ((err == nil) == atlock(b.accepts(len(packet))))
+//@   ensures [n] (err == nil ==> n == len(packet)) && (err != nil ==> n == 0)
+//@   ensures [errs] err != nil && len(packet) < 65536 ==> (atlock(b.closed) ==> err == io.ErrClosedPipe) && (!atlock(b.closed) ==> err == ErrFull)
+//@   ensures [noeffect] err != nil && len(packet) < 65536 ==> b.W == atlock(b.W) && b.R == atlock(b.R) && b.wr == atlock(b.wr) && b.rd == atlock(b.rd) &&
+//@            b.G == atlock(b.G) && b.start == atlock(b.start) && b.end == atlock(b.end) && b.count == atlock(b.count) && b.sz() == atlock(b.sz()) &&
+//@            b.closed == atlock(b.closed) && b.limitCount == atlock(b.limitCount) && b.limitSize == atlock(b.limitSize)
+//@   ensures [stored] err == nil ==> b.wr == atlock(b.wr) + 1 && b.rd == atlock(b.rd) && b.R == atlock(b.R) && b.W == atlock(b.W) + 2 + len(packet) &&
+//@            b.start[atlock(b.wr)] == atlock(b.W) && b.plen(atlock(b.wr)) == len(packet) && b.end[atlock(b.wr)] == b.W &&
+//@            (forall i mathint :: {b.G[atlock(b.W)+2+i]} 0 <= i && i < len(packet) ==> b.G[atlock(b.W)+2+i] == packet[i]) &&
+//@            (forall p mathint :: {b.G[p]} p < atlock(b.W) ==> b.G[p] == atlock(b.G[p])) &&
+//@            (forall j mathint :: {b.start[j]} j <= atlock(b.wr) ==> b.start[j] == atlock(b.start[j])) &&
+//@            (forall j mathint :: {b.end[j]} j < atlock(b.wr) ==> b.end[j] == atlock(b.end[j]))
+//@   ghost at unlock when b.count == atlock(b.count) + 1:
+//@        b.G[b.W] = len(packet) / 256; b.G[b.W+1] = len(packet) % 256;
+//@        forall p in [b.W+2, b.W+2+len(packet)): b.G[p] = packet[p - b.W - 2];
+//@        b.end[b.wr] = b.W + 2 + len(packet); b.start[b.wr+1] = b.W + 2 + len(packet); b.W = b.W + 2 + len(packet); b.wr = b.wr + 1
+//@   loop 1 invariant [locked] held(b.mutex)
+//@   loop 1 invariant [inv] b.inv()
+//@   loop 1 invariant [same] b.W == atlock(b.W) && b.R == atlock(b.R) && b.wr == atlock(b.wr) && b.rd == atlock(b.rd) &&
+//@            b.G == atlock(b.G) && b.start == atlock(b.start) && b.end == atlock(b.end) && b.count == atlock(b.count) && b.sz() == atlock(b.sz()) &&
+//@            b.closed == atlock(b.closed) && b.limitCount == atlock(b.limitCount) && b.limitSize == atlock(b.limitSize)
+//@   loop 1 invariant [fits] !b.closed && len(packet) < 65536 && !(b.limitCount > 0 && b.count >= b.limitCount) &&
+//@            !(b.limitSize > 0 && b.sz() + 2 + len(packet) > b.limitSize)
+
+//@ func (b *Buffer) Read(packet []byte) (n int, err error)
+//@   modifies packet[*]
+//@   ensures [ok] err == nil ==> n == atlock(b.plen(b.rd)) && n <= len(packet)
+//@   ensures [short] err == io.ErrShortBuffer ==> n == len(packet) && n < atlock(b.plen(b.rd))
+//@   ensures [bytes] (err == nil || err == io.ErrShortBuffer) ==> atlock(b.count) > 0 &&
+//@            (forall i mathint :: {packet[i]} 0 <= i && i < n ==> packet[i] == atlock(b.G[b.start[b.rd]+2+i]))
+//@   ensures [consumed] (err == nil || err == io.ErrShortBuffer) ==> b.rd == atlock(b.rd) + 1 && b.R == atlock(b.end[b.rd]) &&
+//@            b.wr == atlock(b.wr) && b.W == atlock(b.W) && b.G == atlock(b.G) && b.start == atlock(b.start) && b.end == atlock(b.end)
+//@   ensures [rest] forall i mathint :: {packet[i]} n <= i && i < len(packet) ==> packet[i] == old(packet[i])
+//@   ensures [eof] err == io.EOF ==> n == 0 && atlock(b.closed) && atlock(b.count) == 0
+//@   ensures [other] err != nil && err != io.ErrShortBuffer && err != io.EOF ==> n == 0 && typeis(err, *netError)
+//@   ghost at unlock when b.count == atlock(b.count) - 1: b.R = b.end[b.rd]; b.rd = b.rd + 1
+//@   loop 1 invariant [unlocked] !held(b.mutex)
+//@   loop 1 invariant [untouched] forall i mathint :: {packet[i]} 0 <= i && i < len(packet) ==> packet[i] == old(packet[i])
+
+//@ func (b *Buffer) Close() (err error)
+//@   ensures [nil] err == nil
+//@   ensures [closed] b.closed && b.W == atlock(b.W) && b.R == atlock(b.R) && b.wr == atlock(b.wr) && b.rd == atlock(b.rd) && b.G == atlock(b.G) && b.start == atlock(b.start) && b.end == atlock(b.end)
+
+//@ func (b *Buffer) Count() (r int)
+//@   ensures [count] r == atlock(b.wr - b.rd)
+
+//@ func (b *Buffer) Size() (r int)
+//@   ensures [size] r == atlock(b.W - b.R)
+
+//@ func (b *Buffer) SetLimitCount(limit int)
+//@   ensures [set] b.limitCount == limit && b.limitSize == atlock(b.limitSize) && b.count == atlock(b.count) && b.W == atlock(b.W) && b.R == atlock(b.R) &&
+//@            b.wr == atlock(b.wr) && b.rd == atlock(b.rd) && b.G == atlock(b.G) && b.start == atlock(b.start) && b.end == atlock(b.end) && b.closed == atlock(b.closed)
+
+//@ func (b *Buffer) SetLimitSize(limit int)
+//@   requires limit < 1152921504606846976
+//@   ensures [set] b.limitSize == limit && b.limitCount == atlock(b.limitCount) && b.count == atlock(b.count) && b.W == atlock(b.W) && b.R == atlock(b.R) &&
+//@            b.wr == atlock(b.wr) && b.rd == atlock(b.rd) && b.G == atlock(b.G) && b.start == atlock(b.start) && b.end == atlock(b.end) && b.closed == atlock(b.closed)
+
+//@ property C06: NewBuffer, Buffer.grow, Buffer.Write, Buffer.Read, Buffer.Close, Buffer.size, Buffer.available
+//@ property C07: NewBuffer, Buffer.size, Buffer.available, Buffer.grow, Buffer.Write, Buffer.Read, Buffer.Count, Buffer.Size, Buffer.SetLimitCount, Buffer.SetLimitSize, Buffer.Close
